@@ -39,6 +39,11 @@ type gcase struct {
 	// js, css
 	Idd  bool `json:"idd"`
 	Id   bool `json:"id"`
+	Fd   bool `json:"fd"`
+	St   bool `json:"st"`
+	Ct   bool `json:"ct"`
+	Ld   bool `json:"ld"`
+	En   bool `json:"en"`
 	Numd bool `json:"numd"`
 	Num  bool `json:"num"`
 	Urld bool `json:"urld"`
@@ -385,6 +390,9 @@ func runCase(w *tr.Writer, fam string, c *gcase, sum *summary) (bad [][3]string,
 		res := exec(w, &spec{Fam: "js", S: s})
 		boolean(res, "AsIdentifierName", c.Idd, c.Id, res["New"]["cls_id"].(string))
 		boolean(res, "AsDecimalLiteral", c.Numd, c.Num, res["New"]["cls_num"].(string))
+		boolean(res, "IsIdentifierStart", c.Fd, c.St, "first-character")
+		boolean(res, "IsIdentifierContinue", c.Fd, c.Ct, "first-character")
+		boolean(res, "IsIdentifierEnd", c.Ld, c.En, "last-character")
 		nontrivial = c.Id || c.Num
 	case "css":
 		res := exec(w, &spec{Fam: "css", S: s})
